@@ -55,6 +55,7 @@ class SimKernel(object):
         self.flags = {}         # fd -> status flags set through fcntl(F_SETFL)
         self.hangs = []         # calls that would have blocked for ever on a blocking descriptor
         self.sig_handlers = {}  # signal number -> handler installed through signal.signal()
+        self.reaped = []        # pids returned by waitpid, in order
         self.jobstopped = []    # live children stopped by SIGSTOP/SIGTSTP and not yet reported to a WUNTRACED waiter
 
     def _fault(self, name):
@@ -204,6 +205,7 @@ class SimKernel(object):
         if self.zombies:
             p, sts = self.zombies.pop(0)
             self.trace.append(('wait', p, sts))
+            self.reaped.append(p)
             return p, sts
         if not self.live:
             raise OSError(errno.ECHILD, 'sim no children')
@@ -238,6 +240,15 @@ class SimKernel(object):
         self.nextpid += 1
         self.zombies.append((pid, status))
 
+    def recycled_zombie(self, k, status):
+        """A child supervisord never forked (an orphan re-parented to it) dies with a pid that one of supervisord's own
+        children had before it was reaped: the kernel recycles pids.  Monitor-judged scripts only."""
+        old = [p for p in self.reaped if p not in self.live and all(z[0] != p for z in self.zombies)]
+        if old:
+            pid = old[k % len(old)]
+            self.trace.append(('recycled', pid))      # harness marker: this pid number now names another child
+            self.zombies.append((pid, status))
+
 
 class FakeOS(object):
     """Stands in for the `os` module inside supervisor.options."""
@@ -256,6 +267,12 @@ class FakeOS(object):
 
     def kill(self, pid, sig):
         return self._k.kill(pid, sig)
+
+    def killpg(self, pgid, sig):
+        # never reaches the real kernel: simulated pids must not name real process groups
+        if pgid <= 0:
+            raise OSError(errno.EINVAL, 'sim killpg: invalid process group')
+        return self._k.kill(-pgid, sig)
 
     def pipe(self):
         return self._k.pipe()
